@@ -1,6 +1,6 @@
 (* Correspondence evaluators for the VM (C05, C07-C12, C14): a case is an environment, a program, an
    initial machine state and a gas limit together with what the implementation did on it. *)
-From EB Require Export Corr.Common Vm.Exec Spec.Ops.
+From EB Require Export Corr.Common Vm.Exec Spec.Ops Hash.Sha256.
 Open Scope list_scope.
 Open Scope Z_scope.
 
@@ -25,7 +25,7 @@ Definition view_of (t : view_tbl) : view := fun c k n =>
 
 Definition sha_tbl := list (list Z * list Z).
 Definition sha_of (t : sha_tbl) (bs : list Z) : list Z :=
-  match find (fun e => zlist_eqb (fst e) bs) t with Some e => snd e | None => repeat 0 32 end.
+  match find (fun e => zlist_eqb (fst e) bs) t with Some e => snd e | None => sha256 bs end.   (* no entry: SHA-256 itself (Hash/Sha256.v) *)
 (* ed25519: (key, sig, msg) -> 0 = invalid key error, 1 = false, 2 = true *)
 Definition ed_tbl := list (list Z * list Z * list Z * Z).
 Definition ed_of (t : ed_tbl) (k sg m : list Z) : option bool :=
